@@ -240,6 +240,20 @@ func genC02(g *Gen, tier string, w *bufio.Writer) {
 			fmt.Fprintf(w, "rt %s %s\n", ct, v)
 		}
 	}
+	// types whose size bounds wrap 64 bits although every limit is <= 2^40:
+	// (2^24-4+4) * 2^40 = 2^64, so List[List[uint8, 2^24-4], 2^40] has MaxSize 0 = MinSize
+	{
+		u8 := &Ty{Kind: KUint, N: 1}
+		w0 := &Ty{Kind: KList, N: 1 << 40, Elem: &Ty{Kind: KList, N: 1<<24 - 4, Elem: u8}}
+		for _, t := range []*Ty{{Kind: KVector, N: 2, Elem: w0}, {Kind: KList, N: 3, Elem: w0},
+			{Kind: KVector, N: 2, Elem: &Ty{Kind: KVector, N: 2, Elem: w0}}, {Kind: KList, N: 4, Elem: &Ty{Kind: KVector, N: 1, Elem: w0}}} {
+			for k := 0; k < 4; k++ {
+				v := g.RandVal(t, 40)
+				fmt.Fprintf(w, "ser new %s %s\n", t, v)
+				fmt.Fprintf(w, "rt %s %s\n", t, v)
+			}
+		}
+	}
 	// every bit index of bitfields up to 513
 	for _, n := range []uint64{1, 7, 8, 9, 31, 32, 33, 34, 63, 64, 65, 255, 256, 257, 512, 513} {
 		for _, t := range []*Ty{{Kind: KBitvector, N: n}, {Kind: KBitlist, N: n}, {Kind: KBitlist, N: 1 << 20}} {
